@@ -47,7 +47,7 @@ Lemma cb_a64_shape md first rel rg m :
   | _ => True
   end.
 Proof.
-  unfold cb_a64. destruct (mdat md); [reflexivity|].
+  unfold cb_a64. destruct (mdat md) as [|p sec|]; [reflexivity| |reflexivity].
   unfold cb_dwarf.
   assert (W : forall f svma,
     match with_fde arule aregs row_step_a64 uncovered_rule_a64 f svma first rg m with
